@@ -20,6 +20,7 @@ package interp
 // distinguish error panics from other panics.
 
 import (
+	"strconv"
 	"fmt"
 	"go/token"
 	"go/types"
@@ -133,8 +134,102 @@ func strPanic(i *interpreter, msg string) targetPanic {
 	return targetPanic{iface{types.Typ[types.String], msg}}
 }
 
+// typeString renders a type the way reflect.Type.String (and fmt's %T) does: package
+// names rather than paths, "interface {}", "struct { A T; B U }".
 func typeString(t types.Type) string {
-	return types.TypeString(t, func(p *types.Package) string { return p.Name() })
+	q := func(p *types.Package) string { return p.Name() }
+	switch t := t.(type) {
+	case *types.Pointer:
+		return "*" + typeString(t.Elem())
+	case *types.Slice:
+		return "[]" + typeString(t.Elem())
+	case *types.Array:
+		return "[" + strconv.FormatInt(t.Len(), 10) + "]" + typeString(t.Elem())
+	case *types.Map:
+		return "map[" + typeString(t.Key()) + "]" + typeString(t.Elem())
+	case *types.Chan:
+		switch t.Dir() {
+		case types.SendOnly:
+			return "chan<- " + typeString(t.Elem())
+		case types.RecvOnly:
+			return "<-chan " + typeString(t.Elem())
+		}
+		return "chan " + typeString(t.Elem())
+	case *types.Struct:
+		if t.NumFields() == 0 {
+			return "struct {}"
+		}
+		var sb strings.Builder
+		sb.WriteString("struct {")
+		for k := 0; k < t.NumFields(); k++ {
+			if k > 0 {
+				sb.WriteString(";")
+			}
+			f := t.Field(k)
+			sb.WriteString(" ")
+			if !f.Embedded() {
+				sb.WriteString(f.Name() + " ")
+			}
+			sb.WriteString(typeString(f.Type()))
+			if tag := t.Tag(k); tag != "" {
+				sb.WriteString(" " + strconv.Quote(tag))
+			}
+		}
+		sb.WriteString(" }")
+		return sb.String()
+	case *types.Interface:
+		if t.NumMethods() == 0 && t.NumEmbeddeds() == 0 {
+			return "interface {}"
+		}
+		var sb strings.Builder
+		sb.WriteString("interface {")
+		for k := 0; k < t.NumMethods(); k++ {
+			if k > 0 {
+				sb.WriteString(";")
+			}
+			m := t.Method(k)
+			sb.WriteString(" " + m.Name() + strings.TrimPrefix(typeString(m.Type()), "func"))
+		}
+		sb.WriteString(" }")
+		return sb.String()
+	case *types.Signature:
+		var sb strings.Builder
+		sb.WriteString("func(")
+		for k := 0; k < t.Params().Len(); k++ {
+			if k > 0 {
+				sb.WriteString(", ")
+			}
+			pt := t.Params().At(k).Type()
+			if t.Variadic() && k == t.Params().Len()-1 {
+				sb.WriteString("..." + typeString(pt.(*types.Slice).Elem()))
+			} else {
+				sb.WriteString(typeString(pt))
+			}
+		}
+		sb.WriteString(")")
+		switch n := t.Results().Len(); {
+		case n == 1:
+			sb.WriteString(" " + typeString(t.Results().At(0).Type()))
+		case n > 1:
+			sb.WriteString(" (")
+			for k := 0; k < n; k++ {
+				if k > 0 {
+					sb.WriteString(", ")
+				}
+				sb.WriteString(typeString(t.Results().At(k).Type()))
+			}
+			sb.WriteString(")")
+		}
+		return sb.String()
+	case *types.Alias:
+		return typeString(types.Unalias(t))
+	case *types.Basic:
+		if t.Kind() == types.UnsafePointer {
+			return "unsafe.Pointer"
+		}
+		return strings.TrimPrefix(t.Name(), "untyped ")
+	}
+	return types.TypeString(t, q)
 }
 
 func reflectKind(t types.Type) reflect.Kind {
